@@ -29,11 +29,12 @@ import (
 )
 
 type broker struct {
-	cmd    *exec.Cmd
-	addr   string
-	stderr string
-	dir    string
-	exited chan struct{}
+	prefill []byte // what the metrics log held before the broker started
+	cmd     *exec.Cmd
+	addr    string
+	stderr  string
+	dir     string
+	exited  chan struct{}
 }
 
 func freePort() string {
@@ -65,6 +66,18 @@ func startBrokerOnce(tag string) (*broker, error) {
 		return nil, err
 	}
 	b := &broker{addr: freePort(), dir: dir, stderr: filepath.Join(dir, "stderr.log"), exited: make(chan struct{})}
+	if strings.HasPrefix(tag, "metrics-log") {
+		// a metrics log with a few megabytes of history, as a broker that has been
+		// running for months has (the broker appends to it)
+		var pre bytes.Buffer
+		for i := 0; pre.Len() < 5<<20; i++ {
+			fmt.Fprintf(&pre, "snowflake-stats-end 2026-01-%02d 00:00:00 (86400 s) line %07d %s\n", 1+i%28, i, strings.Repeat("x", i%61))
+		}
+		if err := ioutil.WriteFile(filepath.Join(dir, "metrics.log"), pre.Bytes(), 0600); err != nil {
+			return nil, err
+		}
+		b.prefill = pre.Bytes()
+	}
 	f, err := os.Create(b.stderr)
 	if err != nil {
 		return nil, err
@@ -544,6 +557,8 @@ func TestVerifC14(t *testing.T) {
 	liveSessionAnswers(res, root)
 	concurrentLoad(res, root)
 	failedReadsThenValid(res, root)
+	metricsConcurrent(res)
+	res.RequireObs("metrics_log_reads", 20)
 	res.RequireObs("valid_requests_after_failed_reads", 100)
 	for _, m := range []string{"GET", "POST", "OPTIONS", "HEAD", "FOO"} {
 		found := false
@@ -687,6 +702,66 @@ func failedReadsThenValid(res *vlib.Result, root *vlib.Rand) {
 			return
 		}
 	}
+}
+
+// metricsConcurrent: /metrics serves the broker's append-only metrics log. Many
+// GETs at once, against a log of several megabytes: every response must be
+// complete (as long as it announces) and must be the log - it begins with the
+// history that was there before the broker started.
+func metricsConcurrent(res *vlib.Result) {
+	b, err := startBroker("metrics-log")
+	if err != nil {
+		res.Inconcl("cannot start broker for the metrics log reads: " + err.Error())
+		return
+	}
+	defer b.stop()
+	res.Require(len(b.prefill) > 1<<20, "the metrics log of the broker under test holds history")
+	check := func(id string, par int) {
+		rs, err := exchange(b.addr, []*rawReq{{Method: "GET", Target: "/metrics"}}, 60*time.Second)
+		res.Eval(1)
+		res.Obs("metrics_log_reads", 1)
+		rec := map[string]interface{}{"case": id, "simultaneous_requests": par, "log_bytes_before_start": len(b.prefill)}
+		if err != nil || len(rs) != 1 || rs[0].Err != "" {
+			e := fmt.Sprint(err)
+			if len(rs) == 1 {
+				e = rs[0].Err
+				rec["status"] = rs[0].Status
+				rec["body_bytes_received"] = len(rs[0].body)
+			}
+			res.Violatef("c14:no-well-formed-response:/metrics:concurrent-reads", rec, "GET /metrics among %d simultaneous ones: %s", par, e)
+			return
+		}
+		if rs[0].Status != 200 {
+			res.Violatef("c14:metrics-log-not-served", rec, "GET /metrics answered %d", rs[0].Status)
+			return
+		}
+		body := rs[0].body
+		if len(body) < len(b.prefill) || !bytes.Equal(body[:len(b.prefill)], b.prefill) {
+			at := 0
+			for at < len(body) && at < len(b.prefill) && body[at] == b.prefill[at] {
+				at++
+			}
+			res.Violatef("c14:metrics-log-served-wrong", rec, "GET /metrics among %d simultaneous ones returned %d bytes that differ from the log (%d bytes of history) at offset %d", par, len(body), len(b.prefill), at)
+			return
+		}
+		res.Obs("metrics_log_reads_complete_and_equal_to_the_log", 1)
+	}
+	for i := 0; i < 3; i++ {
+		check(fmt.Sprintf("metrics-log/sequential/%d", i), 1)
+	}
+	rounds := vlib.Scale(5, 40)
+	for i := 0; i < rounds; i++ {
+		var wg sync.WaitGroup
+		for k := 0; k < 8; k++ {
+			wg.Add(1)
+			go func(k int) {
+				defer wg.Done()
+				check(fmt.Sprintf("metrics-log/round-%d/%d", i, k), 8)
+			}(k)
+		}
+		wg.Wait()
+	}
+	res.Distinct("metrics-log-concurrent")
 }
 
 // liveSessionAnswers: request sequences that refer to a session that is alive at
